@@ -120,7 +120,7 @@ func (s *stepWorld) expectedCode(r *stepReq) hagallpb.ErrorCode {
 			return codeBad
 		}
 		older := verifnd.And(isOwn, r.name == "act", s.hasAction, tsBefore(r.actTS.Seconds, r.actTS.Nanos, s.actSec, s.actNanos))
-		olderP := verifnd.And(r.eid == s.ePers, r.name == "act", s.hasAction, tsBefore(r.actTS.Seconds, r.actTS.Nanos, 1, 1))
+		olderP := verifnd.And(verifnd.Or(r.eid == s.ePers, r.eid == s.eOther), r.name == "act", s.hasAction, tsBefore(r.actTS.Seconds, r.actTS.Nanos, 1, 1))
 		return iteCode(verifnd.Or(r.name == "", !exists, older, olderP), codeBad, codeOK)
 	case kAssetAdd:
 		return iteCode(r.name == "", codeBad, iteCode(!exists, codeNotFound, iteCode(!isOwn, codeUnauth, codeOK)))
@@ -163,8 +163,11 @@ func c04Step(sh stepShape, lo, hi int) {
 		assumeValidTS(r.actTS.Seconds, r.actTS.Nanos)
 	}
 	want := s.expectedCode(r)
+	p1, view := s.probe(s.a0.sid)
+	s.w.drainAll()
 	o := s.run(s.a0, r)
 	kn := kindName(kind)
+	told := p1.drain()
 
 	// the handler only errors (-> disconnect) for the receipt kinds by design; never for a joined participant otherwise
 	if kind != kReceipt {
@@ -207,6 +210,15 @@ func c04Step(sh stepShape, lo, hi int) {
 			t := typeNum(m)
 			verifnd.Assert(t != 0 && (st == 0 || t != st), "C04.answer_only_to_requester", kn)
 		}
+	}
+	// a refused request changes nothing: nobody is told anything and a newcomer is handed the state a probe held before
+	if nAns == 1 && gotCode != codeOK && kind != kPingResponse {
+		verifnd.Assert(len(told) == 0 && len(o.m1) == 0 && len(o.m2) == 0, "C04.refused.nobody_told", kn)
+		_, handed := s.probe(s.a0.sid)
+		for _, m := range p1.drain() {
+			view.apply(m, 0)
+		}
+		verifnd.Assert(verifnd.And(view.sameParticipants(handed), view.sameEntities(handed), view.sameComponents(handed, s.tReg), view.sameActions(handed), view.sameAssets(handed)), "C04.refused.changes_nothing", kn)
 	}
 	verifnd.Observe("c04", uint64(kind), uint64(nAns), uint64(uint32(gotCode)))
 	verifnd.Reach("C04.step.done")
